@@ -5,3 +5,77 @@ from pyvc.bounded import bounded_check
 carrier = Contract(name="C10-bounded", qual=None, kind="function", props=["C10"], modes={}, replay="oracles.bounded_adapter:c10",
                    stated=["decided by the bounded stand-in bounded.c10 only"])
 carrier.extra_checks = [bounded_check("bounded.c10", "lpc-levinson-symrun", ["C10"])]
+
+
+# ---------------------------------------------------------------------------
+# acorr(blk, max_lag): element tau is sum_{n < len-tau} blk[n]*blk[n+tau] (0 when tau >= len), max_lag+1 elements.
+# ACS(tau, j) = the sum of the first j terms (specification function defined by its recurrence).
+import z3
+from pyvc.contract import Loop, Yield, Comp
+from pyvc.sym import Int, Real, Const, ListOf, UFn, INT, REAL
+
+_ACS = z3.Function("ACS", INT, INT, REAL)
+_TERMS = "ite(length(blk) - k > 0, length(blk) - k, 0)"
+acorr = Contract(
+    name="acorr", qual="audiolazy/lazy_analysis.py::acorr", kind="function", props=["C10"],
+    modes={"max_lag=None": Mode(params=dict(blk=ListOf(Real), max_lag=Const(None)), ensures=[("S:len(blk)-lags", "length(result) == ite(length(blk) > 0, length(blk), 0)")]),
+           "max_lag-given": Mode(params=dict(blk=ListOf(Real), max_lag=Int), ensures=[("S:max_lag+1-lags", "length(result) == ite(max_lag + 1 > 0, max_lag + 1, 0)")])},
+    axioms=[("def:ACS(tau,0)", "forall(lambda t: ACS(t, 0) == 0)")],
+    comps={1: Comp(elem=Real, ensures=[])},
+    loops={1: Loop(inv=[("C:count", "nout == pos(_it1)")])},
+    yields={"g1": Yield(post=[("S:lag-k-is-the-defining-sum(zero-when-the-lag-exceeds-the-block)", "result == ACS(k, %s)" % _TERMS)])},
+    spec_env={"ACS": UFn(_ACS, 2)}, default_elem=Real, replay="oracles.bounded_adapter:c10",
+    stated=["acorr(blk, max_lag)[tau] == sum_{n < len(blk)-tau} blk[n]*blk[n+tau] for every block length and every lag (0 beyond the block), max_lag+1 values"])
+acorr.sums = {2: dict(partial="ACS(tau, nterms)", term="arr(blk)[nterms] * arr(blk)[nterms + tau]")}
+acorr.assumptions = ["sum(generator) is the left fold with + from 0",
+                     "ACS(tau, j) is the specification function defined by ACS(tau, 0) = 0, ACS(tau, j+1) = ACS(tau, j) + blk[j]*blk[j+tau] (the defining sum of the statement)"]
+acorr.frozen = ["blk"]      # eager code: nothing runs between the iterations; the body itself does not store into blk (checked)
+
+
+# ---------------------------------------------------------------------------
+# lag_matrix(blk, max_lag): cell [j][i] = sum_{n = max_lag .. len-1} blk[n-i]*blk[n-j]; (max_lag+1) x (max_lag+1); ValueError when the
+# block is not longer than max_lag.   LMS(i, j, c) = the sum of the first c terms.
+from pyvc import sym as _sym
+ROWS = _sym._Prim("Rows", z3.ArraySort(INT, REAL))
+_LMS = z3.Function("LMS", INT, INT, INT, REAL)
+_NT = "(length(blk) - max_lag)"
+lag_matrix = Contract(
+    name="lag_matrix", qual="audiolazy/lazy_analysis.py::lag_matrix", kind="function", props=["C10"],
+    modes={"max_lag-given": Mode(params=dict(blk=ListOf(Real), max_lag=Int), requires=["max_lag >= 0"], raises={"ValueError": "max_lag >= length(blk)"}),
+           "max_lag=None": Mode(params=dict(blk=ListOf(Real), max_lag=Const(None)), requires=["length(blk) >= 1"], note="max_lag defaults to len(blk) - 1")},
+    axioms=[("def:LMS(i,j,0)", "forall(lambda a: forall(lambda b: LMS(a, b, 0) == 0))")],
+    comps={1: Comp(elem=ROWS, ensures=[]), 2: Comp(elem=Real, ensures=[])},
+    loops={1: Loop(inv=[("C:count", "nout == pos(_it1)"),
+                        ("C:rows-so-far", "forall(lambda r: forall(lambda c: implies(0 <= r and r < nout and 0 <= c and c <= max_lag, out[r][c] == LMS(c, r, %s) and outlen[r] == max_lag + 1)))" % _NT)]),
+           2: Loop(inv=[("C:count", "nout == pos(_it2)"),
+                        ("C:cells-so-far", "forall(lambda c: implies(0 <= c and c < nout, out[c] == LMS(c, j, %s)))" % _NT)])},
+    yields={"g2": Yield(post=[("S:cell-(i,j)-is-the-defining-sum", "result == LMS(k, j, %s)" % _NT)]),
+            "g1": Yield(post=[("S:row-j-has-max_lag+1-cells-each-the-defining-sum",
+                               "length(result) == max_lag + 1 and forall(lambda i: implies(0 <= i and i <= max_lag, arr(result)[i] == LMS(i, k, %s)))" % _NT)])},
+    ensures=[("S:(max_lag+1)-rows", "length(result) == max_lag + 1"),
+             ("S:every-cell-is-the-defining-sum", "forall(lambda r: forall(lambda c: implies(0 <= r and r <= max_lag and 0 <= c and c <= max_lag, "
+              "arr(result)[r][c] == LMS(c, r, %s) and rowlen(result, r) == max_lag + 1)))" % _NT)],
+    spec_env={"LMS": UFn(_LMS, 3)}, default_elem=Real, replay="oracles.bounded_adapter:c10",
+    stated=["lag_matrix(blk, max_lag)[j][i] == sum_{n=max_lag}^{len-1} blk[n-i]*blk[n-j] for every block and order; ValueError unless the block is longer than max_lag"])
+lag_matrix.sums = {3: dict(partial="LMS(i, j, nterms)", term="arr(blk)[max_lag + nterms - i] * arr(blk)[max_lag + nterms - j]")}
+lag_matrix.frozen = ["blk"]
+lag_matrix.assumptions = ["sum(generator) is the left fold with + from 0",
+                          "LMS(i, j, c) is the specification function defined by LMS(i, j, 0) = 0, LMS(i, j, c+1) = LMS(i, j, c) + blk[max_lag+c-i]*blk[max_lag+c-j]"]
+
+
+# ---------------------------------------------------------------------------
+# toeplitz(vect): the symmetric Toeplitz matrix R[j][i] = vect[|i - j|], len x len
+toeplitz = Contract(
+    name="toeplitz", qual="audiolazy/lazy_lpc.py::toeplitz", kind="function", props=["C10"],
+    modes={"any": Mode(params=dict(vect=ListOf(Real)))},
+    comps={1: Comp(elem=ROWS, ensures=[]), 2: Comp(elem=Real, ensures=[])},
+    loops={1: Loop(inv=[("C:count", "nout == pos(_it1)"),
+                        ("C:rows-so-far", "forall(lambda r: forall(lambda c: implies(0 <= r and r < nout and 0 <= c and c < length(vect), out[r][c] == arr(vect)[abs(c - r)] and outlen[r] == length(vect))))")]),
+           2: Loop(inv=[("C:count", "nout == pos(_it2)"), ("C:cells-so-far", "forall(lambda c: implies(0 <= c and c < nout, out[c] == arr(vect)[abs(c - j)]))")])},
+    yields={"g2": Yield(post=[("S:cell-is-vect[|i-j|]", "result == arr(vect)[abs(k - j)]")]),
+            "g1": Yield(post=[("S:row-j", "length(result) == length(vect) and forall(lambda i: implies(0 <= i and i < length(vect), arr(result)[i] == arr(vect)[abs(i - k)]))")])},
+    ensures=[("S:len-rows", "length(result) == length(vect)"),
+             ("S:R[j][i]==vect[|i-j|]", "forall(lambda r: forall(lambda c: implies(0 <= r and r < length(vect) and 0 <= c and c < length(vect), arr(result)[r][c] == arr(vect)[abs(c - r)] and rowlen(result, r) == length(vect))))")],
+    default_elem=Real, replay="oracles.bounded_adapter:c10",
+    stated=["toeplitz(v)[j][i] == v[|i-j|], len(v) x len(v)"])
+toeplitz.frozen = ["vect"]
